@@ -5,6 +5,7 @@ import Driver.DS.Main
 import Driver.Layout.Main
 import Driver.Misc.Main
 import Driver.Conc.Main
+import Driver.Sched.Main
 /-!
 # `mmtk_model`: the executable model behind the line protocol
 
@@ -21,6 +22,7 @@ structure St where
   layout : Driver.Layout.St := {}
   misc : Driver.Misc.St := {}
   conc : Driver.Conc.St := {}
+  sched : Driver.Sched.St := {}
 
 def step (st : St) (line : String) : St × Option String :=
   match tokens line with
@@ -28,7 +30,7 @@ def step (st : St) (line : String) : St × Option String :=
   | "cfg" :: rest =>
     let st := { st with metaS := Driver.Meta.cfg st.metaS rest, ds := Driver.DS.cfg st.ds rest,
                         layout := Driver.Layout.cfg st.layout rest, misc := Driver.Misc.cfg st.misc rest,
-                        conc := Driver.Conc.cfg st.conc rest }
+                        conc := Driver.Conc.cfg st.conc rest, sched := Driver.Sched.cfg st.sched rest }
     match Driver.Base.step st.base ("cfg" :: rest) with
     | some (b, _) => ({ st with base := b }, some "ok")
     | none => (st, some "ok")
@@ -50,6 +52,9 @@ def step (st : St) (line : String) : St × Option String :=
     | none =>
     match Driver.Conc.step st.conc toks with
     | some (s, o) => ({ st with conc := s }, some o)
+    | none =>
+    match Driver.Sched.stepPkg st.sched toks with
+    | some (s, o) => ({ st with sched := s }, some o)
     | none => (st, some "bad-op")
 
 partial def loop (h : IO.FS.Stream) (out : IO.FS.Stream) (st : St) : IO Unit := do
